@@ -121,7 +121,7 @@ def install_misc(ex, st):
     I = ex.intercepts
 
     def add(pattern, fn):
-        I.append((re.compile(pattern + r'$'), fn))
+        I.append((re.compile('(?:' + pattern + r')$'), fn))
     add(r'(?:excludes::)?Exclude::nothing', lambda ex, c, a: ExcludeV())
     add(r'(?:excludes::)?Exclude::matches::<.*>', lambda ex, c, a: False)
     add(r'<(?:excludes::)?Exclude as Clone>::clone', lambda ex, c, a: deref(a[0]))
@@ -198,8 +198,23 @@ def install_misc(ex, st):
     add(r'(?:lru::)?LruCache::<.*>::pop::<.*>', lru_pop)
     add(r'<usize as TryInto<NonZero<usize>>>::try_into|<usize as TryInto<std::num::NonZero<usize>>>::try_into',
         lambda ex, c, a: ok(a[0]))
-    add(r'(?:std::sync::atomic::)?AtomicUsize::(fetch_add|load|store)', lambda ex, c, a: 0)
-    add(r'<(?:blockdir::)?BlockDirStats as Default>::default', lambda ex, c, a: Opaque('BlockDirStats'))
+    def atomic(ex, c, a):
+        op = c.rsplit('::', 1)[1]
+        r = a[0]
+        if not isinstance(r, Ref):
+            return 0
+        old = r.get()
+        if old is UNINIT or not isinstance(old, int) and not is_sym(old):
+            old = 0
+        if op == 'fetch_add':
+            r.set(old + a[1])
+        elif op == 'store':
+            r.set(a[1])
+            return UNIT
+        return old
+    add(r'(?:std::sync::atomic::)?Atomic(?:Usize|::<usize>|U64|::<u64>)::(fetch_add|load|store)', atomic)
+    add(r'<(?:std::sync::atomic::)?Atomic(?:Usize|<usize>) as Default>::default|(?:std::sync::atomic::)?Atomic(?:Usize|::<usize>)::new',
+        lambda ex, c, a: a[0] if a else 0)
     add(r'(?:tokio::)?(?:task::)?spawn::<.*>', spawn_now)
 
 
